@@ -407,6 +407,127 @@ theorem rangeNorm_examples :
     rangeNorm 5 (-100) (-200) = none ∧ rangeNorm 5 (-100) (-5) = some (0, 1) ∧
     rangeNorm 0 0 (-1) = none ∧ rangeNorm 5 7 9 = none := by decide
 
+/-! ## 5b. lists: index laws, vanishing, deadlines -/
+
+/-- LRANGE / LTRIM normalisation never selects outside the list -/
+theorem list_index_laws (len : Nat) (a b : Int) (st n : Nat)
+    (h : lrangeNorm len a b = some (st, n)) : 0 < n ∧ st + n ≤ len := by
+  unfold lrangeNorm at h
+  have hs := normIdx_nonneg len a
+  by_cases hc : normIdx len a > (if b < 0 then b + len else b) ∨ normIdx len a ≥ len
+  · rw [if_pos hc] at h; cases h
+  · rw [if_neg hc] at h
+    simp only [Option.some.injEq, Prod.mk.injEq] at h
+    obtain ⟨h3, h4⟩ := h
+    unfold clampEnd at h4
+    split at h4 <;> omega
+
+/-- LINDEX / LSET address an existing position or nothing -/
+theorem listIdx_in_bounds (len : Nat) (i : Int) (n : Nat) (h : listIdx len i = some n) : n < len := by
+  unfold listIdx at h
+  simp only at h
+  by_cases hc : (if i < 0 then i + len else i) < 0 ∨ (if i < 0 then i + len else i) ≥ len
+  · rw [if_pos hc] at h; cases h
+  · rw [if_neg hc] at h
+    simp only [Option.some.injEq] at h
+    omega
+
+theorem lrangeNorm_examples :
+    lrangeNorm 5 0 (-1) = some (0, 5) ∧ lrangeNorm 5 (-2) (-1) = some (3, 2) ∧
+    lrangeNorm 5 (-100) 100 = some (0, 5) ∧ lrangeNorm 5 2 1 = none ∧ lrangeNorm 5 5 10 = none ∧
+    lrangeNorm 5 0 (-6) = none ∧ lrangeNorm 5 (-100) (-5) = some (0, 1) ∧ lrangeNorm 0 0 (-1) = none := by
+  decide
+
+theorem lookupList_found {s : State} {k : Nat} {l : List BS} {dl : Option Nat}
+    (h : lookupList s k = .found l dl) : NMap.get s k = some ⟨.list l, dl⟩ := by
+  unfold lookupList at h
+  split at h
+  · cases h
+  · rename_i e he
+    obtain ⟨v, d⟩ := e
+    cases v <;> simp at h
+    obtain ⟨h1, h2⟩ := h
+    subst h1 h2
+    exact he
+
+/-- a list that loses its last element stops existing (LPOP, RPOP, LTRIM to nothing, LMOVE /
+    RPOPLPUSH to another key): the key is absent afterwards, deadline included -/
+theorem emptied_list_vanishes (s : State) (hwf : NMap.WF s) (k : Nat) (x : BS) (dl : Option Nat)
+    (h : lookupList s k = .found [x] dl) :
+    NMap.get (execPop .left s k).1 k = none ∧
+    NMap.get (execPop .right s k).1 k = none ∧
+    NMap.get (execLTrim s k 1 0).1 k = none ∧
+    (∀ dst f t, dst ≠ k → lookupList s dst = .missing →
+        NMap.get (execLMove s k dst f t).1 k = none ∧
+        NMap.get (execLMove s k dst f t).1 dst = some ⟨.list [x], none⟩) := by
+  refine ⟨?_, ?_, ?_, ?_⟩
+  · simp [execPop, h, popSide, putList, NMap.get_erase hwf]
+  · simp [execPop, h, popSide, putList, NMap.get_erase hwf]
+  · have : lrangeNorm 1 1 0 = none := by decide
+    simp [execLTrim, h, this, slice, putList, NMap.get_erase hwf]
+  · intro dst f t hne hd
+    have hne' : ¬ k = dst := fun e => hne e.symm
+    cases f <;> simp [execLMove, h, hd, popSide, putList, hne, hne', NMap.get_insert,
+      NMap.get_erase hwf]
+
+/-- … and the observers agree: after the step the key is invisible to every command -/
+theorem emptied_list_invisible (s : State) (hr : Reachable s) (now k : Nat) (c : Cmd)
+    (h : NMap.get (step s now c).1 k = none) : visible (step s now c).1 now k = false := by
+  have hwf := (inv_preserved s now c (reachable_inv hr)).1
+  rw [visible_eq, get_purge hwf, h]; rfl
+
+/-- LMOVE / RPOPLPUSH with source = destination rotate in place and keep the deadline -/
+theorem lmove_same_key_keeps_deadline (s : State) (k : Nat) (l : List BS) (dl : Option Nat)
+    (f t : Side) (h : lookupList s k = .found l dl) (hl : l ≠ []) :
+    ∃ l', NMap.get (execLMove s k k f t).1 k = some ⟨.list l', dl⟩ ∧ l'.length = l.length := by
+  have hp : ∃ x rest, popSide f l = some (x, rest) ∧ rest.length + 1 = l.length := by
+    cases f with
+    | left =>
+      cases l with
+      | nil => exact absurd rfl hl
+      | cons x xs => exact ⟨x, xs, rfl, rfl⟩
+    | right =>
+      have hne : l.getLast? = some (l.getLast hl) := List.getLast?_eq_some_getLast hl
+      refine ⟨l.getLast hl, l.dropLast, by simp [popSide, hne], ?_⟩
+      have h1 : l.dropLast.length = l.length - 1 := List.length_dropLast
+      have h2 : 0 < l.length := List.length_pos_iff.mpr hl
+      omega
+  obtain ⟨x, rest, hp1, hp2⟩ := hp
+  cases t with
+  | left =>
+    refine ⟨x :: rest, ?_, by simp; omega⟩
+    simp [execLMove, h, hp1, pushOne, putList, NMap.get_insert]
+  | right =>
+    refine ⟨rest ++ [x], ?_, by simp; omega⟩
+    have : rest ++ [x] ≠ [] := by simp
+    simp only [execLMove, h, hp1, pushOne, if_true]
+    unfold putList
+    split
+    · rename_i heq; exact absurd heq this
+    · simp [NMap.get_insert]
+
+/-- pushes keep the deadline of an existing list and create new lists without one -/
+theorem push_deadline (s : State) (k : Nat) (side : Side) (v : BS) (vs : List BS) :
+    (∀ l dl, lookupList s k = .found l dl →
+        NMap.get (execPush side s k (v :: vs)).1 k = some ⟨.list (pushMany side l (v :: vs)), dl⟩) ∧
+    (lookupList s k = .missing →
+        NMap.get (execPush side s k (v :: vs)).1 k = some ⟨.list (pushMany side [] (v :: vs)), none⟩) := by
+  have hne : ∀ l, pushMany side l (v :: vs) ≠ [] := by
+    intro l; cases side <;> simp [pushMany]
+  constructor
+  · intro l dl h
+    simp only [execPush, h]
+    unfold putList
+    split
+    · rename_i heq; exact absurd heq (hne l)
+    · simp [NMap.get_insert]
+  · intro h
+    simp only [execPush, h]
+    unfold putList
+    split
+    · rename_i heq; exact absurd heq (hne [])
+    · simp [NMap.get_insert]
+
 /-! ## 6. integer laws -/
 
 /-- only canonical texts are accepted: no `+`, no leading zero (except "0"), no `-0`, no
